@@ -695,16 +695,21 @@ def r12_5(ctx, prog, crate):
         ar = [c for c in x.live_calls() if c.callee == "std::vec::Vec::retain"]
         ok = len(ar) == 1
         if ok:
-            vec = S.op(ar[0].args[0])
-            # after the args pass the leaf's verdict is `!args.is_empty()` of the same vector, on the direct continuation
-            nxt = ar[0].target
-            ie = x.call_at(nxt) if nxt is not None else None
-            ok = ie is not None and ie.callee == "std::vec::Vec::is_empty" and S.op(ie.args[0]) == vec
-            if ok:
-                blk = x.blocks[ie.target]
-                rets = [s for s in blk["stmts"] if s["k"] == "assign" and s["p"]["l"] == 0 and not s["p"]["proj"]]
-                ok = len(rets) == 1 and rets[0]["rv"]["k"] == "unop" and rets[0]["rv"]["op"] == "Not" and \
-                    rets[0]["rv"]["o"].get("p", {}).get("l") == ie.dest["l"]
+            # on every path that filters a leaf's arguments the node's verdict is `!args.is_empty()` of that very vector,
+            # asked after the pass (path summaries: whichever temporaries the verdict travels through)
+            from lib.patheval import PathEval
+            sums = PathEval(x, max_paths=4000).run()
+            seen = 0
+            for sm in sums or []:
+                rt = [c for c in sm.calls if c[0] == "std::vec::Vec::retain" and c[2] == ar[0].bb]
+                if not rt:
+                    continue
+                seen += 1
+                vecp = rt[0][1][0]
+                r = sm.ret
+                ok = ok and r[0] == "un" and r[1] == "Not" and r[2][0] == "site" and r[2][1] == "std::vec::Vec::is_empty" and len(r[2][3]) == 1 and \
+                    r[2][3][0][0] in ("sptr", "ptr") and vecp[0] in ("sptr", "ptr") and r[2][3][0][1] == vecp[1] and sm.blocks.index(r[2][2]) > sm.blocks.index(ar[0].bb)
+            ok = ok and seen >= 1
         ctx.check(ok, "R12.5", ["EntryTree::retain", "args-leaf-kept-iff-args-remain"],
                   "an argument leaf is not kept exactly when `!args.is_empty()` after its args were filtered (an empty `args` list would stay registered)", x.where(0))
         # the args of the pass are the leaf's own args (payload of the `args: Some(..)` pattern of the predicate's parameter)
